@@ -147,7 +147,7 @@ func Val(typ string, nullPct int, reps bool) *rapid.Generator[script.Val] {
 			if typ == "int2" || typ == "int4" || typ == "int8" {
 				opts = append(opts, "int")
 			}
-			if typ == "json" {
+			if typ == "json" || typ == "jsonb" {
 				// pgx marshals anything but string/[]byte for a json column (a *string or a
 				// pgtype.Text becomes a JSON document, a nil pointer the JSON value null):
 				// what a handler means by those is not settled by the property - not generated
@@ -157,7 +157,7 @@ func Val(typ string, nullPct int, reps bool) *rapid.Generator[script.Val] {
 		}
 		if nullPct > 0 && rapid.IntRange(1, 100).Draw(t, "null?") <= nullPct {
 			nulls := []string{"nil", "nilptr", "invalid"}
-			if typ == "json" {
+			if typ == "json" || typ == "jsonb" {
 				nulls = []string{"nil"}
 			}
 			v.Null = rapid.SampledFrom(nulls).Draw(t, "null")
@@ -190,9 +190,9 @@ func Val(typ string, nullPct int, reps bool) *rapid.Generator[script.Val] {
 				f = rapid.Float64().Draw(t, "f")
 			}
 			v.F = math.Float64bits(f)
-		case "text", "varchar", "name":
+		case "text", "varchar", "name", "bpchar":
 			v.S = CString(300).Draw(t, "s")
-		case "json":
+		case "json", "jsonb":
 			v.S = rapid.SampledFrom([]string{`{}`, `[]`, `null`, `{"a":1}`, `"s"`, `[1,2,{"k":"é"}]`, `0`, `{"q":"\"\\"}`, ` {"sp": true} `}).Draw(t, "json")
 		case "bytea":
 			switch rapid.IntRange(0, 3).Draw(t, "bytea-kind") {
@@ -226,7 +226,7 @@ func Val(typ string, nullPct int, reps bool) *rapid.Generator[script.Val] {
 			} else {
 				v.I = rapid.Int64Range(-730119, 2921939).Draw(t, "d")
 			}
-		case "timestamp":
+		case "timestamp", "timestamptz":
 			if rapid.Bool().Draw(t, "bound") {
 				v.I = rapid.SampledFrom([]int64{0, 1, -1, 999999, 1000000, -946684800000000, 86399999999, 86400000000, -63082281600000000, 252455615999999999, 500000, 120000}).Draw(t, "ts")
 			} else {
